@@ -3,6 +3,7 @@ package exif2
 import (
 	"sync"
 
+	"github.com/evanoberholster/imagemeta/exif2/tag"
 	"github.com/rs/zerolog"
 )
 
@@ -54,8 +55,13 @@ func (b *buffer) validTag() bool {
 }
 
 // readTagValue discards until tag.ValueOffset and reads length of tag
-func (ir *ifdReader) readTagValue() (buf []byte, err error) {
-	t := ir.buffer.currentTag()
+func (ir *ifdReader) readTagValue(t Tag) (buf []byte, err error) {
+	if t.IsEmbedded() {
+		// The value lives in the tag itself, there is nothing to read. Embedded
+		// tags are parsed while the directory entries are still being read from
+		// the reader's buffer: reading here would move the stream under them.
+		return nil, tag.ErrTagTypeNotValid
+	}
 	if err := ir.discard(int(t.ValueOffset) - int(ir.po)); err != nil {
 		return nil, err
 	}
